@@ -195,8 +195,13 @@ class Script:
             self.peer(5, 0, struct.pack(">I", w))
         elif k == 4:
             n = r.choice([1, 2, 64, 128, 200, 4096, 65536])
+            old_cs = self.w.cs
             self.pending += self.w.set_chunk_size(n)
-            self.flush()
+            if old_cs > 4096 or r.chance(1, 2):          # (the model needs minutes for input calls of hundreds of KB)
+                self.flush()
+            else:
+                # the announcement and a message longer than the OLD chunk size in the same input call
+                self.peer(r.choice([22, 255, 19]), 0, r.bytes(old_cs + r.range(1, 300)), sep=True)
         elif k == 5:
             self.peer(20, r.choice([0, 1]), command(r.choice(["FCPublish", "releaseStream", "_checkbw", "getStreamLength", ""]),
                                                     r.choice([0, 3]), NULL, [S("x")] if r.chance(1, 2) else []))
@@ -383,6 +388,22 @@ def ack_script(rng):
     return "server " + " | ".join(s.ops)
 
 
+def big_call_script(rng):
+    """one input call larger than 2^16 bytes under a window the call crosses: the count is the call's size, whatever its size"""
+    s = Script(rng, "quick")
+    s.ops.append("cfg %s 4096 2500000 1073741824 0 0" % hexs(b"v") + "")
+    w = rng.choice([70000, 100000, 131072, 200000])
+    s.peer(5, 0, struct.pack(">I", w))
+    s.pending += s.w.set_chunk_size(65536)
+    s.flush()
+    data = b""
+    for _ in range(rng.range(1, 3)):
+        data += s.w.message(rng.choice([22, 255]), 0, rng.below(1000), rng.bytes(rng.choice([66000, 70000, 100000])))
+    s.ops.append("in %d %s %s" % (s.tick(), rng.choice(["w", "k65535", "k65536", "k70000"]), hexs(data)))
+    s.peer(4, 0, struct.pack(">HI", 7, 5))
+    return "server " + " | ".join(s.ops)
+
+
 def fuzz_script(rng, tier):
     """network input no well-behaved peer sends: a generated script whose peer bytes are mutated, truncated or random"""
     from gens.chunk import mutate
@@ -413,6 +434,8 @@ def generate(rng, tier):
         yield gen_script(rng, tier)
     for _ in range(n // 4):
         yield ack_script(rng)
+    for _ in range(3 if tier == "quick" else 40):
+        yield big_call_script(rng)
 
 
 def nontrivial(case):
